@@ -14,6 +14,9 @@ class ConstControlT {
 	template <typename, typename, typename, typename...>
 	friend struct O_;
 
+	template <typename, typename, Prong, typename...>
+	friend struct OS_;
+
 	template <typename, typename>
 	friend class R_;
 
